@@ -47,8 +47,15 @@ mod rt {
     pub fn init() {
         #[cfg(feature = "rt-tokio")]
         {
+            // DRIVE_BLOCKING_THREADS=1 (the fault legs): one blocking-pool thread, so that strace's per-thread
+            // `when=N` counts the blocking calls of an async operation in the order they are made
+            let blocking = std::env::var("DRIVE_BLOCKING_THREADS")
+                .ok()
+                .and_then(|v| v.parse::<usize>().ok())
+                .unwrap_or(512);
             let rt = tokio::runtime::Builder::new_multi_thread()
                 .worker_threads(2)
+                .max_blocking_threads(blocking.max(1))
                 .enable_all()
                 .build()
                 .expect("failed to build the tokio runtime");
